@@ -301,6 +301,12 @@ def run(ctx: Ctx) -> int:
     for nm in ("len", "abs", "max", "min", "int", "float", "bool", "str", "range", "sleep", "print", "HIGH", "OUTPUT"):
         inputs.append(("shadowing", scripts_pool.HEADER + f"def {nm}(a, b):\n    return a + b\nx = {nm}(1, 2)\nsleep(max(100, 250))\n", None))
         inputs.append(("shadowing", scripts_pool.HEADER + f"{nm} = 5\ny = {nm} + 1\nsleep(abs(-20))\n", None))
+    longport = "/dev/serial/by-id/usb-Arduino__www.arduino.cc__0043_85735313932351E0B1C2-if00"
+    for tail in ("", "  # the usual port", " ", ")", " extra", "\n", ", upload=False", ")  # x", "'"):
+        for q in ('"', "'"):
+            inputs.append(("target-line", f"from Reduino import target\ntarget({q}{longport}{q}){tail}\nfrom Reduino.Actuators import Led\nled = Led(13)\n", None))
+            inputs.append(("target-line", f"from Reduino import target\ntarget({q}{longport}{q}{tail}\nled = 1\n", None))
+            inputs.append(("target-line", f"from Reduino import target\nport = target({q}{longport} {longport}{q}){tail}\n", None))
     for v in VALID_PYTHON:
         inputs.append(("python", scripts_pool.HEADER + v, None))
     for p in sorted((common.SRC / "Reduino").rglob("*.py"))[:12]:
